@@ -160,9 +160,59 @@ def graph_program(rnd):
     return s
 
 
+def wide_program(rnd):
+    """a program with thousands of variables (one key per cell or edge of a large board): only the description is judged"""
+    load_repo()
+    from cspuz import Solver
+    s = Solver()
+    n = rnd.choice([1023, 1024, 1025, 2049, 2600, 4100])
+    vs = []
+    for j in range(n):
+        vs.append(s.bool_var() if rnd.random() < 0.7 else s.int_var(-1, 1))
+    bs = [v for v in vs if den.kind_of(v) == "bool"]
+    s.ensure(bs[0] | bs[1])
+    return s
+
+
+def _w_wide(lo, hi, seed, out):
+    import warnings
+    with Env() as env:
+        for k in range(lo, hi):
+            rnd = random.Random(seed * 7919 + k)
+            s = wide_program(rnd)
+            name = [n for n in NAMES if n != "sugar"][k % (len(NAMES) - 1)]
+            nv = len(s.variables)
+            for keys in ([True] * nv, [rnd.random() < 0.9 for _ in range(nv)]):
+                out["n"] += 1
+                s.is_answer_key = list(keys)
+                env.set_reply("sat\n")
+                env.take_calls()
+                with warnings.catch_warnings():
+                    warnings.simplefilter("ignore")
+                    try:
+                        s.solve(name)
+                    except Exception as e:
+                        out["fails"].append(dict(kind="wide-exception", detail="%s: %s" % (type(e).__name__, e), backend=name, mode="deduction",
+                                                 program=dict(variables=nv), how=dict(kind="wide", seed=seed * 7919 + k)))
+                        continue
+                calls = env.take_calls()
+                for (kd, detail) in check_description(s, name, calls, keys, 1):
+                    out["fails"].append(dict(kind=kd, detail=detail[:400], backend=name, mode="deduction",
+                                             program=dict(variables=nv, keys=sum(keys)), how=dict(kind="wide", seed=seed * 7919 + k)))
+            s.is_answer_key = [False] * nv
+        env.set_reply(None)
+
+
 def _w(args):
     kind, lo, hi, seed = args
     out = dict(n=0, fails=[], crash=None, samples=[])
+    if kind == "wide":
+        try:
+            _w_wide(lo, hi, seed, out)
+        except Exception:
+            import traceback
+            out["crash"] = traceback.format_exc()[-1500:]
+        return out
     try:
         with Env() as env:
             for k in range(lo, hi):
@@ -299,7 +349,10 @@ def run_c03(rep, tier, seed, nproc=8):
         rep.coverage["reply_texts_checked"] = n
     nr = 100 if tier == "quick" else 1500
     ng = 40 if tier == "quick" else 400
+    nw = 8 if tier == "quick" else 48
     tasks = [("random", i, min(i + 10, nr), seed) for i in range(0, nr, 10)] + [("graph", i, min(i + 10, ng), seed + 1) for i in range(0, ng, 10)]
+    tasks += [("wide", i, min(i + 2, nw), seed + 2) for i in range(0, nw, 2)]
+    rep.coverage["wide_programs_1023_to_4100_variables"] = nw
     seen = set()
     with ProcessPoolExecutor(nproc) as ex:
         for r in ex.map(_w, tasks):
